@@ -149,7 +149,7 @@ def jobs(tier, seed, excluded=()):
     else:
         dom = Dom(int_max=1000000, str_mode="cand", str_cands=["p", ""])
         trees = ["T03", "T04", "T06", "T09", "T11", "T14", "T15", "E_range_bound", "E_range_bound_dep", "E_setdef_range", "E_range_cond", "E_hexfloat", "E_set_val_int", "E_default_val", "F:kconfserver/Kconfig"]
-        budget, nparts, tmo = 600, 4, 400
+        budget, nparts, tmo = 250, 4, 200
     out = []
     for door in ("api", "file"):
         out += state_jobs("C06", "vk.props.c06", "wellformed", trees, dom, budget, nparts, tmo, rng, {"door": door}, tag=door, fix_first="bools")
